@@ -84,6 +84,24 @@ extern "C" void h_tab2d(void) {
     }
 }
 
+// AD derivative with respect to the FIRST argument: inside a column interval, for a fixed y, the function is a quadratic in x for the LeftExtreme
+// and Vertical policies (weights linear in alpha, sample positions shifted linearly in alpha), so the symmetric difference quotient equals the
+// derivative exactly.  (RightExtreme scales the shift by y / yEnd(alpha): a rational function of x - only the value is compared there; a first
+// version of this check that applied the quadratic argument to RightExtreme as well raised a false alarm and was corrected.)
+extern "C" void h_tab2d_dx(void) {
+    Raw r; mkraw(r, HPOL == 0, HPOL == 1);
+    Tab2 t(HPOL == 0 ? Tab2::LeftExtreme : HPOL == 1 ? Tab2::RightExtreme : Tab2::Vertical);
+    fill(t, r);
+    int i = (int)verif_concretize(nondet_uint(), HNX - 2);
+    double x = verif_nondet_real(), h = verif_nondet_real(), y = verif_nondet_real();
+    ASSUME(h > 0 && x - h > r.x[i] && x + h < r.x[i + 1] && y > 0);
+    Ev xe = Ev::createVariable(x, 0); Ev re = t.eval(xe, Ev(y), true);
+    CEQ(re.value(), t.eval(x, y, true));
+#if HPOL != 1
+    CEQ(re.derivative(0) * (2 * h), t.eval(x + h, y, true) - t.eval(x - h, y, true));
+#endif
+}
+
 // ---- live oil: x = Rs, y = pressure, saturated line = lowest pressure of each column (LeftExtreme)
 extern "C" void h_liveoil(void) {
     Raw r; mkraw(r, true, false);            // x = Rs nodes, y0 = saturation pressures (increasing with Rs), y1 = one undersaturated pressure
